@@ -15,6 +15,44 @@ def save(prop, body):
 
 AD_INVS = ["TypeOK", "CountIsOwnership", "NeverWhileHeld", "SentOnlyAtZero", "SentOnce", "FirstGcCollects"]
 
+def apalache(module, init, inv, length, wd, timeout=900):
+    """Run apalache-mc check; returns (ok, violated, wall, tail)."""
+    t0 = time.time()
+    out = os.path.join(wd, "apalache-" + module + "-" + init + "-" + str(length))
+    p = subprocess.run(["timeout", "-k", "10", str(timeout), "apalache-mc", "check", "--init=" + init, "--inv=" + inv, "--length=%d" % length,
+                        "--out-dir=" + out, module + ".tla"], cwd=wd, stdout=subprocess.PIPE, stderr=subprocess.STDOUT, text=True)
+    ok = "EXITCODE: OK" in p.stdout
+    violated = "The outcome is: Error" in p.stdout
+    return ok, violated, time.time() - t0, p.stdout[-1500:]
+
+def inductive_c10(wd):
+    """Unbounded safety of the reference-count core (spec/ADInd.tla): Init => IndInv, IndInv /\\ Next => IndInv', plus two
+    sensitivity checks (an arbitrary IndInv state exists; two mutated copies of the module are NOT inductive)."""
+    src = open(os.path.join(tlc.SPEC, "ADInd.tla")).read()
+    open(os.path.join(wd, "ADInd.tla"), "w").write(src)
+    res = dict()
+    ok0, v0, w0, t0 = apalache("ADInd", "Init", "IndInv", 0, wd)
+    ok1, v1, w1, t1 = apalache("ADInd", "IndInit", "IndInv", 1, wd)
+    res["init_implies_inv"] = ok0
+    res["inv_inductive"] = ok1
+    res["wall_s"] = round(w0 + w1, 1)
+    # sensitivity
+    body = src[:src.rindex("\n====") + 1]
+    open(os.path.join(wd, "ADIndT.tla"), "w").write(body.replace("MODULE ADInd ", "MODULE ADIndT ") + "NoState == FALSE\n" + "=" * 77 + "\n")
+    okT, vT, wT, tT = apalache("ADIndT", "IndInit", "NoState", 0, wd)
+    res["indinit_satisfiable"] = vT
+    m1 = src.replace("MODULE ADInd ", "MODULE ADIndM ").replace("cnt' = [cnt EXCEPT ![e] = @ + 1]", "cnt' = cnt")
+    open(os.path.join(wd, "ADIndM.tla"), "w").write(m1)
+    okM, vM, wM, tM = apalache("ADIndM", "IndInit", "IndInv", 1, wd)
+    m2 = src.replace("MODULE ADInd ", "MODULE ADIndN ").replace("pend' = IF cnt[e] = 1 THEN", "pend' = IF cnt[e] <= 2 THEN")
+    open(os.path.join(wd, "ADIndN.tla"), "w").write(m2)
+    okN, vN, wN, tN = apalache("ADIndN", "IndInit", "IndInv", 1, wd)
+    res["mutants_rejected"] = int(vM) + int(vN)
+    res["ok"] = bool(ok0 and ok1 and vT and vM and vN)
+    if not res["ok"]:
+        res["detail"] = (t0 if not ok0 else t1 if not ok1 else tT if not vT else tM if not vM else tN)[-600:]
+    return res
+
 def check_c10(tier, seed):
     t0 = time.time()
     wd = os.path.join(WORK, "C10-" + tier)
@@ -70,6 +108,8 @@ def check_c10(tier, seed):
     if p.returncode != 0:
         raise ToolError("adstress failed: " + p.stdout[-2000:])
     stress = json.load(open(rep_path))
+    # (d) unbounded: inductive invariant of the reference-count core, discharged by Apalache
+    ind = inductive_c10(wd)
     rc = 0
     paths = []
     for v in viol[:3]:
@@ -85,9 +125,12 @@ def check_c10(tier, seed):
     if mc.violated and rc == 0:
         log("TOOL-ERROR AutoDespawn.tla violates %s in the model" % mc.violated)
         rc = 2
+    if not ind["ok"] and rc == 0:
+        log("TOOL-ERROR the inductive invariant of ADInd.tla was not established by Apalache: %s" % json.dumps(ind)[:800])
+        rc = 2
     cov = dict(states=mc.distinct, transitions=mc.generated, traces_validated_against_impl=ok,
                samples=[{"schedule": [[o["op"], o["th"], o["e"]] for o in sched[0]], "alive_after_each_op": [o["alive"] for o in sched[0]]}],
-               exhaustive=mc.complete, schedules_replayed=len(sched), stress=dict((k, stress[k]) for k in ("rounds", "entities", "gcs", "held_checks")),
+               exhaustive=mc.complete, inductive_invariant=ind, schedules_replayed=len(sched), stress=dict((k, stress[k]) for k in ("rounds", "entities", "gcs", "held_checks")),
                constants={k: (sorted(v) if isinstance(v, set) else v) for k, v in consts.items()})
     ev = dict(property_id="C10", tier=tier, seed=seed, level="model_checking", coverage=cov,
               assumptions=["Arc strong-count decrement and crossbeam send/try_recv are linearizable",
